@@ -99,12 +99,18 @@ func Harness_C11_XSDExtensions() {
 	if twin {
 		twinDoc = `<xs:complexType name="base"><xs:sequence><xs:element name="other" type="xs:integer"/></xs:sequence></xs:complexType>` + "\n"
 	}
+	// the base type may have an optional element of its own type (a list node, a tree)
+	selfRef := nd.Bool("base-type-refers-to-itself")
+	selfDoc := ""
+	if selfRef {
+		selfDoc = `<xs:element name="next" type="Base" minOccurs="0"/>` + "\n"
+	}
 	doc := `<?xml version="1.0"?>
 <xs:schema xmlns:xs="http://www.w3.org/2001/XMLSchema">
 <xs:complexType name="Base"><xs:sequence>
 <xs:element name="id" type="xs:string"/>
 <xs:element name="note" type="xs:string"` + occurs(baseOpt) + `/>
-</xs:sequence></xs:complexType>
+` + selfDoc + `</xs:sequence></xs:complexType>
 <xs:complexType name="Derived">
 ` + derived + `</xs:complexType>
 ` + twinDoc + `</xs:schema>
@@ -137,6 +143,10 @@ func Harness_C11_XSDExtensions() {
 		nd.Assert("xsd:types-differing-only-in-case-are-both-declared", tk == "type" && ok && typ == "int")
 		_, leaked := c11FieldLine(base, "other")
 		nd.Assert("xsd:types-differing-only-in-case-stay-apart", !leaked)
+	}
+	if selfRef {
+		typ, ok := c11FieldLine(base, "next")
+		nd.Assert("xsd:self-referential-type", ok && typ == "Base?")
 	}
 	der, dk := c11Block(out, "Derived")
 	nd.Assert("xsd:derived-type-declared", dk != "")
